@@ -39,4 +39,53 @@ MUTANTS = [
             // call the action method
             HandledEnum res = ROW::action_call(fsm,evt,
                              ::boost::fusion::at_key<current_state_type>(fsm.m_substate_list),''')]),
+ dict(name='flag-back-start-unprotected', prop='C04', rule='C04.flag', edits=[(B, '            event_processing_guard guard(m_event_processing);\n            // call on_entry on this SM\n            (static_cast<Derived*>(this))->on_entry(fsm_initial_event(),*this);', '            // call on_entry on this SM\n            (static_cast<Derived*>(this))->on_entry(fsm_initial_event(),*this);')]),
+ dict(name='flag-back11-do_entry-plain', prop='C04', rule='C04.flag-exc', edits=[(B11, '''            event_processing_guard guard(m_event_processing);
+            // if the event is generating a direct entry/fork, set the current state(s) to the direct state(s)
+            direct_event_start_helper(this)(incomingEvent,fsm);
+        }''', '''            m_event_processing = true;
+            // if the event is generating a direct entry/fork, set the current state(s) to the direct state(s)
+            direct_event_start_helper(this)(incomingEvent,fsm);
+            m_event_processing = false;
+        }''')]),
+ dict(name='queue-back-push_front', prop='C04', rule='C04.queue-ops', edits=[(B, '''            // event has to be put into the queue
+            m_events_queue.m_events_queue.push_back(''', '''            // event has to be put into the queue
+            m_events_queue.m_events_queue.push_front(''')]),
+ dict(name='flag-mp11-clear-after-pool', prop='C04', rule='C04.flag-drain', edits=[(MP, '''        m_event_processing = false;
+
+        // After handling, look if we have more to process in the event pool
+        // (but only if we're not already processing from it).
+        if constexpr (event_pool_member::value)
+        {
+            if (info != process_info::event_pool)
+            {
+                process_event_pool();
+            }
+        }
+''', '''
+        // After handling, look if we have more to process in the event pool
+        // (but only if we're not already processing from it).
+        if constexpr (event_pool_member::value)
+        {
+            if (info != process_info::event_pool)
+            {
+                process_event_pool();
+            }
+        }
+        m_event_processing = false;
+''')]),
+ dict(name='single-back-loops', prop='C04', rule='C04.dequeue', edits=[(B, '''    void execute_single_queued_event_helper(::boost::mpl::false_ const &)
+    {
+        transition_fct to_call = m_events_queue.m_events_queue.front();
+        m_events_queue.m_events_queue.pop_front();
+        to_call();
+    }''', '''    void execute_single_queued_event_helper(::boost::mpl::false_ const &)
+    {
+        transition_fct to_call = m_events_queue.m_events_queue.front();
+        to_call();
+        m_events_queue.m_events_queue.pop_front();
+    }''')]),
+ dict(name='target-back-bind-cref', prop='C04', rule='C04.target', edits=[(B, '''                pf, this, evt,
+                static_cast<EventSource>(EVENT_SOURCE_MSG_QUEUE)));''', '''                pf, this, ::boost::cref(evt),
+                static_cast<EventSource>(EVENT_SOURCE_MSG_QUEUE)));''')]),
 ]
